@@ -25,12 +25,14 @@ def gen_banner(rng):
     """Well-formed identification string -> bytes (including CR LF and optional trailing bytes)."""
     proto = rng.choice([b"2.0", b"1.99"])
     vext = bytes(rng.choice(b"0123456789.") for _ in range(rng.choice([0, 0, 0, 1, 3])))
-    soft = _no_crlf(_fill(rng, rng.choice([rng.randrange(0, 40), rng.randrange(0, 40), rng.randrange(40, 250)]), (0x20, 0x0A)))
+    big = rng.random() < 0.06          # identification strings that do not fit one 1500-byte frame
+    soft = _no_crlf(_fill(rng, rng.choice([rng.randrange(0, 40), rng.randrange(0, 40), rng.randrange(40, 250)]) if not big or rng.random() < 0.5
+                          else rng.randrange(1400, 3700), (0x20, 0x0A)))
     if rng.random() < 0.15:
         soft += b"\r" * rng.randrange(1, 4)          # software ending in lone CR(s)
     out = b"SSH-" + proto + vext + b"-" + soft
     if rng.random() < 0.5:
-        com = _no_crlf(_fill(rng, rng.choice([rng.randrange(0, 40), rng.randrange(40, 250)]), (0x0A,)))
+        com = _no_crlf(_fill(rng, rng.choice([rng.randrange(0, 40), rng.randrange(40, 250)]) if not big or len(soft) > 1000 else rng.randrange(1400, 3700), (0x0A,)))
         if rng.random() < 0.15:
             com += b"\r" * rng.randrange(1, 4)
         out += b" " + com
@@ -73,7 +75,7 @@ GHOST_MAGIC = b"Gh0st"
 
 
 def gen_ghost(rng):
-    return GHOST_MAGIC + bytes(rng.getrandbits(8) for _ in range(rng.choice([0, 1, 8, 9, 100, 1400, rng.randrange(0, 1401)])))
+    return GHOST_MAGIC + bytes(rng.getrandbits(8) for _ in range(rng.choice([0, 1, 8, 9, 100, 1400, rng.randrange(0, 1401), rng.randrange(0, 1401), rng.randrange(1401, 3900)])))
 
 
 def check_ghost(resp):
